@@ -36,11 +36,18 @@ func runSwitchRound(e *hk.Env, seed uint64, n int, rnd *hk.Rng) {
 	if rnd.Chance(15) {
 		nPre = 255 // the adder's second Add migrates
 	}
+	oneLen := 0
+	if rnd.Chance(12) {
+		oneLen = []int{32, 24, 28}[rnd.Intn(3)]
+		e.Count("switch_rounds_with_one_prefix_length_in_the_list", 1)
+	}
 	var line []string
 	pre := make([]*rng, nPre)
 	for i := range pre {
 		r := &rng{ip: [4]byte{172, byte(16 + i%16), byte(i / 16), byte(rnd.Intn(256))}, ones: 24 + rnd.Intn(9)}
-		if i%37 == 5 {
+		if oneLen > 0 { // the whole list has ONE prefix length
+			r.ones = oneLen
+		} else if i%37 == 5 {
 			r = &rng{ip: [4]byte{byte(64 + 2*(i/37)), 9, 9, 9}, ones: 9 + rnd.Intn(8)} // a few short prefixes, disjoint
 		}
 		pre[i] = r
@@ -125,6 +132,22 @@ func runSwitchRound(e *hk.Env, seed uint64, n int, rnd *hk.Rng) {
 	start.Store(true)
 	wg.Wait()
 
+	for _, prog := range append([][]swOp{adder}, progs...) {
+		for i := range prog {
+			if prog[i].res == 2 {
+				if v, _ := e.Stats["switch_round_panics"].(int); v < 3 {
+					kind := "panic-in-Remove"
+					if prog[i].add {
+						kind = "panic-in-Add"
+					}
+					e.Case("VIOL", kind, fmt.Sprintf("seed=%d", seed), fmt.Sprintf("switch_round=%d", n), "range="+prog[i].r.String(),
+						fmt.Sprintf("prefilled=%d", nPre), fmt.Sprintf("one_prefix_length=%d", oneLen))
+				}
+				e.Count("switch_round_panics", 1)
+				e.Count("violations", 1)
+			}
+		}
+	}
 	// the migrating Add is the adder's call that made the 257th slot
 	mig := &adder[len(adder)-1]
 	if nPre == 256 {
